@@ -88,8 +88,8 @@ def case_loader(seed, out, spec):
             if how == 'bool_false':
                 custom_cfg[('plugin_%s' % nm).upper()] = False
             elif how == 'bool_true':
-                custom_cfg[('plugin_%s' % nm).upper()] = True
-                ambiguous.add(nm)
+                custom_cfg[('plugin_%s' % nm).upper()] = True     # switched on is switched on
+                expect.append((nm, order))
             else:
                 def broken(self):
                     raise RuntimeError('cannot tell whether %s is active' % nm)
